@@ -264,6 +264,14 @@ contract(MF, CTX + ".close_shard", props=["C10", "C04", "C06", "C08", "C18", "C1
                 "  NOT_ON_DISK(self._dataset_root_path, si_ref(y))))"),
         # other splits' lists untouched
         "forall(lambda t: implies(t != split, (t in self._shards_lists) == old(t in self._shards_lists)), t='U')",
+        # the lists of the other splits stay well formed (their files are complete, no new document is one of them)
+        ("C04", "forall(lambda t: implies(t != split and old(t in self._shards_lists and LIST_OK(self, t)), LIST_OK(self, t)), t='U')"),
+        # an (in-memory, not parsed) info that was in none of the context's lists and is not the closed shard's is in none now
+        ("C04", "forall(lambda y: implies(si_ref(y) is not shard.shard_info and not isdisk(si_ref(y))"
+                "   and old(forall(lambda t, i: implies(t in self._shards_lists and 0 <= i and i < len(self._shards_lists[t].shard_files),"
+                "          self._shards_lists[t].shard_files[i] is not si_ref(y)), t='U')),"
+                "  forall(lambda t, i: implies(t in self._shards_lists and 0 <= i and i < len(self._shards_lists[t].shard_files),"
+                "          self._shards_lists[t].shard_files[i] is not si_ref(y)), t='U')))"),
         # C04: the certified part of the tree stays an exact tree; only this split's directory is touched
         ("C04", "reveal SC_GINV,SC_DISK,GINVKEEP: hide CS_GINV: implies(old(GINV(self._dataset_root_path)) and old(DISK_OK(self._dataset_root_path)), GINV(self._dataset_root_path))"),
         ("C04", "reveal CERTDEF: hide CS_FR: OTHER_SPLITS_KEPT(self._dataset_root_path, split)"),
@@ -431,7 +439,8 @@ contract(MF, MFD + ".get_updated_infos", props=["C09"], params={}, returns="list
 macro("FCTX", ["f"], "f._dataset_filler_context")
 contract(MF, MFD + "._update_infos", props=["C04", "C06", "C09", "C16", "C05"], params={},
     requires=["len(self._updated_infos) == 0", "CTX_LISTS_OK(FCTX(self))",
-              "FCTX(self)._dataset_root_path == self._dataset.path", "DISK_OK(self._dataset.path)"],
+              "FCTX(self)._dataset_root_path == self._dataset.path", "DISK_OK(self._dataset.path)",
+              "forall(lambda s: implies(s in FCTX(self)._shards_lists, PLAIN(s)), s='U')"],
     modifies=["DatasetFiller._updated_infos@self", "ghost:fs", "ghost:cert"],
     at_call={"write_config": [
         # C16: list files are hashed with the dataset's configured algorithms
@@ -439,6 +448,14 @@ contract(MF, MFD + "._update_infos", props=["C04", "C06", "C09", "C16", "C05"], 
         ("C09", "callee_dataset_root_path == self._dataset.path")]},
     ensures=[
         (["C06", "C04"], "DISK_OK(self._dataset.path)"),
+        # C04: the certified part stays an exact tree; only the directories of this filler's splits are touched
+        "CTX_LISTS_OK(FCTX(self))",
+        # the j-th info is the one of the j-th split of this filler: it lies in that split's directory
+        ("C04", "forall(lambda j: implies(0 <= j and j < len(self._updated_infos),"
+                "   PART(UP(self._updated_infos[j]), 0) == dictkey(%s, j) and NPARTS(UP(self._updated_infos[j])) >= 2"
+                "   and VALID_ShardListInfo(self._updated_infos[j])))" % "FCTX(self)._shards_lists"),
+        ("C04", "hide UI_GINV: implies(old(GINV(self._dataset.path)), GINV(self._dataset.path))"),
+        ("C04", "hide UI_FR: forall(lambda rel: implies(NPARTS(rel) >= 2 and not ISABS(rel) and not (PART(rel, 0) in FCTX(self)._shards_lists), cert(self._dataset.path, rel) == old(cert(self._dataset.path, rel)) and dstate(PJOIN(self._dataset.path, rel)) == old(dstate(PJOIN(self._dataset.path, rel))) and disk_read(PJOIN(self._dataset.path, rel)) == old(disk_read(PJOIN(self._dataset.path, rel)))), rel='U')"),
         # one info per list written by this filler, each exact for its file
         ("C04", "len(self._updated_infos) == dictlen(FCTX(self)._shards_lists)"),
         ("C04", "forall(lambda j: implies(0 <= j and j < len(self._updated_infos), INFO_EXACT(self._dataset.path, ALGS(self._dataset), self._updated_infos[j])"
@@ -447,51 +464,34 @@ contract(MF, MFD + "._update_infos", props=["C04", "C06", "C09", "C16", "C05"], 
     loops={1: Loop(inv=[
         "0 <= _k and len(self._updated_infos) == _k and _k <= dictlen(FCTX(self)._shards_lists)",
         "CTX_LISTS_OK(FCTX(self))", "FCTX(self)._dataset_root_path == self._dataset.path", "DISK_OK(self._dataset.path)",
+        ("C04", "reveal GINVKEEP: implies(old(GINV(self._dataset.path)), GINV(self._dataset.path))"),
+        ("C04", "reveal CERTDEF: forall(lambda rel: implies(NPARTS(rel) >= 2 and not ISABS(rel) and not (PART(rel, 0) in FCTX(self)._shards_lists), cert(self._dataset.path, rel) == old(cert(self._dataset.path, rel)) and dstate(PJOIN(self._dataset.path, rel)) == old(dstate(PJOIN(self._dataset.path, rel))) and disk_read(PJOIN(self._dataset.path, rel)) == old(disk_read(PJOIN(self._dataset.path, rel)))), rel='U')"),
+        "forall(lambda s: implies(s in FCTX(self)._shards_lists, PLAIN(s)), s='U')",
         ("C04", "forall(lambda j: implies(0 <= j and j < _k, INFO_EXACT(self._dataset.path, ALGS(self._dataset), self._updated_infos[j])"
                 "  and self._updated_infos[j].shard_list_info_file.file_path == FCTX(self)._shards_lists[dictkey(FCTX(self)._shards_lists, j)].relative_path_self))"),
     ], frame={"DatasetFiller._updated_infos": ["self"], "DatasetFiller._dataset": [], "DatasetFiller._dataset_filler_context": [],
-              "ShardsList.shard_files": [], "ShardsList.number_of_examples": [], "DatasetInfo.splits": []})})
+              "ShardsList.shard_files": [], "ShardsList.number_of_examples": [], "DatasetInfo.splits": []},
+       end_lemmas=[
+        # the list written in this step lies in the directory of one of the filler's splits
+        "PART(shards_list.relative_path_self, 0) in FCTX(self)._shards_lists and NPARTS(shards_list.relative_path_self) >= 2",
+        "forall(lambda rel: implies(NPARTS(rel) >= 2 and not ISABS(rel) and not (PART(rel, 0) in FCTX(self)._shards_lists)"
+        "   and axinst(path_inst(shards_list.relative_path_self, NPARTS(rel) - 1, 0, rel, 0) and path_inst(rel, NPARTS(rel) - 1, 0, rel, 0)),"
+        "   rel != shards_list.relative_path_self and not ANCREL(rel, shards_list.relative_path_self)), rel='U')",
+       ])})
 
 # ---- whole-tree well-formedness (the representation invariant of C04/C05/C06/C08) -----
-# WFT(d, info): info is exact for its list file and so is every child entry below it
-ufunc("WFT", ["int", "int"], "bool")
-assumption("A-LEMMA-TREE", "every list locally exact and every entry exact for the file it names (WFT) implies the global totals are exact (structural induction over the finite tree); stated, not machine-checked here")
-_WFT_DEF = ("forall(lambda info: WFT(self, info) == (INFO_EXACT(self.path, ALGS(self), sli_ref(info))"
-            " and forall(lambda i: implies(0 <= i and i < len(DOC_AT(self.path, sli_ref(info).shard_list_info_file.file_path).children_shard_lists),"
-            "      WFT(self, DOC_AT(self.path, sli_ref(info).shard_list_info_file.file_path).children_shard_lists[i])))))")
+# A split is GOOD when the entry the description holds for it is exact for the split's root list
+# file and that file is certified: by GINV + LIST_SHAPE every list reachable from it has exact
+# child entries, by DISK_OK every list is locally exact, hence (A-LEMMA-TREE, Lean) the recorded
+# totals of the split are the actual totals.
+assumption("A-LEMMA-TREE", "every list locally exact and every child entry exact for the child file implies that the recorded total of the root is the actual total of the tree (structural induction over the finite tree: lemmas/TreeExact.lean, machine-checked)")
 macro("KNOWN_SPLIT", ["s"], "s == 'train' or s == 'test' or s == 'holdout'")
+macro("SPLIT_GOOD", ["d", "s"],
+      "UP(d._dataset_info.splits[s]) == PJOIN(s, 'shards_list.json')"
+      " and INFO_EXACT(d.path, galgs(), d._dataset_info.splits[s]) and cert(d.path, UP(d._dataset_info.splits[s]))")
 macro("DS_WF", ["d"],
-      "forall(lambda s: implies(s in d._dataset_info.splits, KNOWN_SPLIT(s) and WFT(d, d._dataset_info.splits[s])"
-      "   and PART(d._dataset_info.splits[s].shard_list_info_file.file_path, 0) == s), s='U')")
+      "forall(lambda s: implies(s in d._dataset_info.splits, KNOWN_SPLIT(s) and SPLIT_GOOD(d, s)), s='U')")
 
-contract(MW, "DatasetWriting.write_config", props=["C04", "C05", "C06", "C08", "C09", "C20", "C16"],
-    params={"updated_infos": "list:ref:ShardListInfo"}, returns="ref:FileInfo",
-    defs=[_WFT_DEF],
-    requires=[
-        "DS_WF(self)", "DISK_OK(self.path)",
-        # every update is exact for a completely written list file (C06: lists before the description)
-        "forall(lambda j: implies(0 <= j and j < len(updated_infos), INFO_EXACT(self.path, ALGS(self), updated_infos[j])))",
-    ],
-    modifies=["DatasetInfo.splits", "ghost:fs", "ghost:cert"],
-    ensures=[
-        "DS_WF(self)", "DISK_OK(self.path)",
-        # C08: untouched splits keep their entry
-        ("C08", "forall(lambda s: implies(forall(lambda j: implies(0 <= j and j < len(updated_infos), PART(updated_infos[j].shard_list_info_file.file_path, 0) != s)),"
-                "   (s in self._dataset_info.splits) == old(s in self._dataset_info.splits)"
-                "   and implies(s in self._dataset_info.splits, self._dataset_info.splits[s] is old(self._dataset_info.splits[s]))), s='U')"),
-        # C20/C04: the description on disk is the one held in memory
-        (["C20", "C04"], "dstate(PJOIN(self.path, 'dataset_info.json')) == 2"),
-    ],
-    raises={"ValueError": ["exists(lambda j: 0 <= j and j < len(updated_infos) and not KNOWN_SPLIT(PART(updated_infos[j].shard_list_info_file.file_path, 0)))"]},
-    verify=False, assumed=True,
-    note="bounded stand-in for now: the grouping / recursive merge (merge_shard_infos) is checked by history sweeps in harness/c_metadata.py")
-
-# in-repo callees of write_config that are covered by its assumed contract: registered so
-# that a change of their source is noticed (the bounded stage audited THIS source text)
-contract("sedpack/io/merge_shard_infos.py", "merge_shard_infos", props=["C04", "C05", "C06", "C08", "C09", "C16"],
-    params={"updates": "list:ref:ShardListInfo", "dataset_root": "U", "common": "int", "hashes": "list:U"},
-    returns="ref:ShardListInfo", verify=False, assumed=True,
-    note="bounded stand-in (history sweeps in harness/c_metadata.py); covered by the assumed contract of DatasetWriting.write_config")
 contract(MW, "DatasetWriting.write_multiprocessing", props=["C09", "C04"], params={}, verify=False, assumed=True,
     note="bounded stand-in (real worker processes in harness/c_metadata.py check_parallel_writers); Pool plumbing is outside the subset")
 
@@ -499,14 +499,18 @@ contract(MW, "DatasetWriting.write_multiprocessing", props=["C09", "C04"], param
 macro("FINV_OPEN1", ["c", "s"], "FINV1(c, s)")
 contract(MF, MFD + ".__exit__", props=["C10", "C04", "C06", "C09", "C08"],
     params={"exc_type": "optU", "exc_value": "optU", "exc_tb": "optU"},
-    defs=[_WFT_DEF.replace("self.path", "self._dataset.path").replace("WFT(self,", "WFT(self._dataset,").replace("ALGS(self)", "ALGS(self._dataset)")],
     requires=["FINV(FCTX(self))", "FCTX(self)._dataset_root_path == self._dataset.path",
-              "len(self._updated_infos) == 0", "DS_WF(self._dataset)",
-              "forall(lambda s: implies(s in FCTX(self)._current_shards_progress, SAFE(s) and PART(s, 0) == s), s='U')",
-              "forall(lambda s: implies(s in FCTX(self)._shards_lists, SAFE(s) and PART(s, 0) == s), s='U')"],
+              "len(self._updated_infos) == 0",
+              # C04: the certified part of the tree is exact; every split of the description that this filler has
+              # not written into is exact (those it has written into are re-merged below)
+              "hide Q_GINV: GINV(self._dataset.path)", "ALGS(self._dataset) == galgs()",
+              "forall(lambda s: implies(s in self._dataset._dataset_info.splits, KNOWN_SPLIT(s) and (s in FCTX(self)._shards_lists or SPLIT_GOOD(self._dataset, s))), s='U')",
+              "forall(lambda s: implies(s in FCTX(self)._current_shards_progress, PLAIN(s)), s='U')",
+              "forall(lambda s: implies(s in FCTX(self)._shards_lists, PLAIN(s)), s='U')"],
     modifies=["Shard._shard_writer", "Writer.closed", "FileInfo.hash_checksums",
               "_DatasetFillerContext._shards_lists", "ShardsList.shard_files", "ShardsList.number_of_examples",
               "DatasetFiller._updated_infos@self", "DatasetInfo.splits", "ghost:fs", "ghost:cert"],
+    call_reveal={"write_config": ["I_GINV", "UI_GINV", "UI_FR"]},
     at_call={
         # C10: __exit__ closes exactly the open shards that hold at least one example
         "close_shard": [("C10", "callee_shard.shard_info.number_of_examples >= 1")],
@@ -519,7 +523,8 @@ contract(MF, MFD + ".__exit__", props=["C10", "C04", "C06", "C09", "C08"],
         ("C09", "implies(not self._auto_update_dataset, frame_old('DatasetInfo.splits'))"),
         # ... with it the dataset's tree is well formed again (induction step over sessions)
         (["C04", "C08"], "implies(self._auto_update_dataset, DS_WF(self._dataset))"),
-        (["C06", "C04"], "DISK_OK(self._dataset.path)"),
+        (["C06", "C04"], "reveal R_DISK: DISK_OK(self._dataset.path)"),
+        ("C04", "reveal R_GINV,UI_GINV,I_GINV: GINV(self._dataset.path)"),
     ],
     raises={"ValueError": ["True"]},
     loops={1: Loop(inv=[
@@ -527,7 +532,9 @@ contract(MF, MFD + ".__exit__", props=["C10", "C04", "C06", "C09", "C08"],
         "FCTX(self)._dataset_root_path == self._dataset.path and len(self._updated_infos) == 0",
         "FCTX(self)._examples_per_shard >= 1 and SAFE(FCTX(self)._relative_path_from_split) and CTX_LISTS_OK(FCTX(self))",
         "DISK_OK(self._dataset.path)",
-        "forall(lambda s: implies(s in FCTX(self)._shards_lists, SAFE(s)), s='U')",
+        "forall(lambda s: implies(s in FCTX(self)._shards_lists, PLAIN(s)), s='U')",
+        "reveal Q_GINV,CS_GINV: hide I_GINV: GINV(self._dataset.path)",
+        "reveal CS_FR: forall(lambda s: implies(s in self._dataset._dataset_info.splits, KNOWN_SPLIT(s) and (s in FCTX(self)._shards_lists or SPLIT_GOOD(self._dataset, s))), s='U')",
         # splits not yet visited are still in the open state; visited ones with examples are closed
     ] + ["forall(lambda s: implies(s in FCTX(self)._current_shards_progress and dictidx(FCTX(self)._current_shards_progress, s) >= _k, %s), s='U')"
          % q.replace("C_", "FCTX(self)") for q in FINV1_PARTS()] + [
